@@ -119,6 +119,30 @@ void h_stop(void) {
 	VPOST("C03,C13,C14", g_live == 0 && members_clean(&u, 0), "error exit: nothing remains allocated, members reset");
 }
 
+/* all fifteen recorded marks outside `mayChange` are the same in x and y */
+#define MKH_SF 0x0001u
+#define MKH_SA 0x0002u
+#define MKH_UF 0x0004u
+#define MKH_UA 0x0008u
+#define MKH_HF 0x0010u
+#define MKH_HA 0x0020u
+#define MKH_PF 0x0040u
+#define MKH_PA 0x0080u
+#define MKH_QF 0x0100u
+#define MKH_QA 0x0200u
+#define MKH_FF 0x0400u
+#define MKH_FA 0x0800u
+#define MKH_IF 0x1000u
+#define MKH_IA 0x2000u
+#define MKH_AP 0x4000u
+static int mk_same(const URI_TYPE(Uri) *x, const URI_TYPE(Uri) *y, unsigned mayChange) {
+#define MKH_F(bit, f) ((mayChange & (bit)) || x->f == y->f)
+	return MKH_F(MKH_SF, scheme.first) && MKH_F(MKH_SA, scheme.afterLast) && MKH_F(MKH_UF, userInfo.first) && MKH_F(MKH_UA, userInfo.afterLast)
+		&& MKH_F(MKH_HF, hostText.first) && MKH_F(MKH_HA, hostText.afterLast) && MKH_F(MKH_PF, portText.first) && MKH_F(MKH_PA, portText.afterLast)
+		&& MKH_F(MKH_QF, query.first) && MKH_F(MKH_QA, query.afterLast) && MKH_F(MKH_FF, fragment.first) && MKH_F(MKH_FA, fragment.afterLast)
+		&& MKH_F(MKH_IF, hostData.ipFuture.first) && MKH_F(MKH_IA, hostData.ipFuture.afterLast) && MKH_F(MKH_AP, absolutePath);
+}
+
 /* the three host-end helpers: host range closed at `first`, IPv4 classification by re-parsing the host text against the
  * RFC 3986 IPv4address recogniser, octets by value, one block allocated iff IPv4, marks moved as the grammar demands */
 #ifndef V_TXT
@@ -163,5 +187,41 @@ void h_onexit(void) {
 	}
 	VPOST("C02", u.scheme.first == b.scheme.first && u.query.first == b.query.first && u.fragment.first == b.fragment.first && u.pathHead == b.pathHead
 		&& u.hostData.ip6 == b.hostData.ip6 && u.absolutePath == b.absolutePath, "host-end helper touches nothing else");
+	/* the may-change sets the Marks.* obligations assume for these helpers (contracts/UriParse.contracts.h, M_OnExit*):
+	 * OwnHost2 {host end}, OwnHostUserInfo {user-info begin, host begin, host end}, OwnPortUserInfo {user-info begin, host begin, port end} */
+	VPOST("C02", mk_same(&u, &b, which == 0 ? MKH_HA : which == 1 ? (MKH_UF | MKH_HF | MKH_HA) : (MKH_UF | MKH_HF | MKH_PA)),
+		"host-end helper changes no recorded mark outside its may-change set");
 	for (i = 0; i < 1; i++) { (void)i; }
+}
+
+/* uriOnExitSegmentNzNcOrScheme2 ("not a scheme": what was recorded as the scheme start is a path segment) and
+ * uriOnExitPartHelperTwo: the facts their contracts state in the Marks.* obligations, on the real code */
+void h_onexit_seg(void) {
+	URI_TYPE(Uri) u, b; URI_TYPE(ParserState) st; UriBool ok; struct sv_view v1;
+	ND_ARR(URI_CHAR, txt, 4);
+	ND(unsigned char, m1); ND(unsigned char, pos); ND(unsigned char, which); ND(unsigned long long, failmask);
+	__CPROVER_assume(m1 <= pos && pos <= 4 && which <= 1);
+	memset(&u, 0, sizeof(u));
+	VMM_RESET(failmask);
+	u.scheme.first = txt + m1;
+	st.uri = &u; st.errorCode = 0; st.errorPos = NULL; st.reserved = NULL;
+	b = u;
+	VCOVER(which == 0 && pos - m1 >= 2, "a provisional scheme of 2 or more characters");
+	VCOVER_END;
+	if (which == 1) {
+		URI_FUNC(OnExitPartHelperTwo)(&st);
+		VPOST("C02", u.absolutePath == URI_TRUE && mk_same(&u, &b, MKH_AP) && u.pathHead == NULL, "OnExitPartHelperTwo sets the absolute-path flag and nothing else");
+		return;
+	}
+	ok = URI_FUNC(OnExitSegmentNzNcOrScheme2)(&st, txt + pos, &vmm);
+	VPOST("C02", mk_same(&u, &b, MKH_SF), "OnExitSegmentNzNcOrScheme2 changes no recorded mark except the scheme start");
+	if (g_failed > 0) {
+		VPOST("C14,C02", ok == URI_FALSE && g_live == 0 && u.pathHead == NULL, "OnExitSegmentNzNcOrScheme2: refused allocation => FALSE, nothing allocated");
+	} else {
+		VPOST("C02", ok == URI_TRUE && u.scheme.first == NULL, "OnExitSegmentNzNcOrScheme2: the provisional scheme start is withdrawn");
+		VPOST("C02", sv_of_uri(&v1, &u) && sv_wf_uri(&u) && v1.path.n == 1 && u.pathHead != NULL
+			&& (pos == m1 ? (u.pathHead->text.first == URI_FUNC(SafeToPointTo) && u.pathHead->text.afterLast == URI_FUNC(SafeToPointTo))
+			              : (u.pathHead->text.first == txt + m1 && u.pathHead->text.afterLast == txt + pos)),
+			"OnExitSegmentNzNcOrScheme2: the text from the provisional scheme start to the end position becomes the first path segment");
+	}
 }
